@@ -6,10 +6,16 @@ import (
 
 // prepareExec prepares execve parameters
 func prepareExec(Args, Env []string) (*byte, []*byte, []*byte, error) {
-	// make exec args0
-	argv0, err := syscall.BytePtrFromString(Args[0])
-	if err != nil {
-		return nil, nil, nil, err
+	// make exec args0 (an empty argument list is reported by execve itself, not by an index panic)
+	var (
+		argv0 *byte
+		err   error
+	)
+	if len(Args) > 0 {
+		argv0, err = syscall.BytePtrFromString(Args[0])
+		if err != nil {
+			return nil, nil, nil, err
+		}
 	}
 	// make exec args
 	argv, err := syscall.SlicePtrFromStrings(Args)
